@@ -186,7 +186,7 @@ class _Pair(Proc):
     def services(self, w):
         from bumble.pairing import PairingConfig, PairingDelegate
 
-        shown = {}
+        shown = self.shown = {}  # what the displaying user sees; the typing user reads it from there
         loop = w.loop
 
         class Shows(PairingDelegate):
@@ -225,6 +225,9 @@ class _Pair(Proc):
             nio = lambda: PairingDelegate(PairingDelegate.IoCapability.NO_OUTPUT_NO_INPUT)  # noqa: E731
             w.devices[0].pairing_config_factory = cfg(nio)
             w.devices[1].pairing_config_factory = cfg(nio)
+
+    async def prepare(self, env):
+        self.shown.clear()  # a new connection: nothing of an earlier, aborted pairing is on the display any more
 
     async def run(self, env, t):
         await t('Connection.pair', env.conn.pair())
